@@ -149,6 +149,16 @@ func (w *World) VerifyFunc(key string) (vc *VC, err error) {
 			vc.assume(True, t)
 			pres = append(pres, t)
 		}
+		for _, cl := range fc.Assumes {
+			t, e := env.CompileBool(cl.E)
+			if e != nil {
+				vc.errorf("%s:%d: assume: %v", cl.File, cl.Line, e)
+				continue
+			}
+			vc.assume(True, t)
+			pres = append(pres, t)
+			vc.note("unchecked assumption in %s: %s", fname, cl.Src)
+		}
 		if len(pres) > 0 {
 			o := vc.oblige("cover", "cover/"+fname+"/pre", fr.props(), True, False, "")
 			if o != nil {
@@ -236,6 +246,23 @@ func (fr *frame) mkAssignsOK(fc *FuncContract, env *Env) func(key string, ref *T
 			}
 			el := types.Unalias(tv.Ty).Underlying().(*types.Slice).Elem()
 			entries = append(entries, entry{keys: map[string]bool{w.elemHeap(el): true}, ref: SlArr(tv.T)})
+		case strings.HasPrefix(a, "*"):
+			e, err := parseExpr(a[1:])
+			if err != nil {
+				fr.vc.errorf("assigns: %v", err)
+				continue
+			}
+			tv, err := env.Compile(e)
+			if err != nil || tv.T == nil {
+				fr.vc.errorf("assigns: %q: %v", a, err)
+				continue
+			}
+			pt, ok := types.Unalias(tv.Ty).Underlying().(*types.Pointer)
+			if !ok {
+				fr.vc.errorf("assigns: %q is not a pointer", a)
+				continue
+			}
+			entries = append(entries, entry{keys: map[string]bool{w.cellHeap(pt.Elem()): true}, ref: tv.T})
 		default:
 			k := strings.LastIndex(a, ".")
 			if k < 0 {
@@ -285,6 +312,8 @@ func (fr *frame) mkAssignsOK(fc *FuncContract, env *Env) func(key string, ref *T
 	return func(key string, ref *Term, st *State) *Term {
 		var alts []*Term
 		if key != "*" && ref != nil {
+			// writing "into" the nil array / nil object never happens
+			alts = append(alts, Eq(ref, IntLit(0)))
 			al := alKey
 			if strings.HasPrefix(key, "E:") {
 				al = alAKey
